@@ -403,6 +403,7 @@ func killAndRestart(home, dir string, snap Snap) {
 	if err != nil {
 		panic(err)
 	}
+	writeDecoys(home)
 	cmd := exec.Command(bin)
 	cmd.Dir = home
 	cmd.Env = []string{"HOME=" + home, "DASTARD_VERIF_C16=settings", "PATH=" + os.Getenv("PATH")}
